@@ -347,6 +347,24 @@ class WorkflowRecovery:
                     # following task here would run it although the uninterrupted
                     # workflow re-arms the stage first.
                     continue
+                elif (
+                    not_started_tasks
+                    and len(not_started_tasks) == len(stage.tasks)
+                    and stage.start_time is not None
+                    and not stage.context.get("_planned")
+                ):
+                    # Claimed but never planned: the worker died between the claim
+                    # commit and the plan commit. Starting the first task would run
+                    # the stage without its ancestors' outputs and without its
+                    # before-stages; StartStage re-plans it (its zombie detection
+                    # recognises the same state).
+                    recovery_messages.append(
+                        StartStage(
+                            execution_type=full_workflow.type.value,
+                            execution_id=full_workflow.id,
+                            stage_id=stage.id,
+                        )
+                    )
                 elif not_started_tasks and stage.start_time is not None:
                     # While before-stages are unfinished the parent's tasks must not
                     # start: the children are re-queued on their own and their
